@@ -212,6 +212,9 @@ def generate(seed, tier):
     classes = list(spec.ALL_BUILTIN) + list(GA_FIELDS) + list(USER_FIELDS) * 2
     class _Gen17(_Gen):
         def field(self, kind, depth):
+            if kind == "FS":
+                return ["fs", sorted(self.rng.sample(["alpha", "beta", "gamma", "delta", "eps"],
+                                                     self.rng.randint(2, 4)))]
             if kind == "s" and self.rng.random() < 0.05:
                 # a name that is an instance of a str subclass
                 return ["nstr", self.rng.choice(self.idents)]
